@@ -31,6 +31,8 @@ type Contract struct {
 	Modifies []Clause // each a location expression
 	HasMod   bool     // a modifies clause was given (possibly "nothing")
 	Loops    map[int]*LoopSpec
+	Uses     []string // prelude chunks forced into this function's own queries
+	Assumes  []string // labels of global invariants assumed at entry
 	Events   []Clause // call-event ghosts: "event <ghost>: <expr>" appended at every call site
 	Trusted  bool // contract is assumed, body not checked against it
 	Reason   string
@@ -54,7 +56,7 @@ type ContractSet struct {
 	Files      []string
 }
 
-var clauseKw = regexp.MustCompile(`^(func|iface|callback|spawn|event|step|requires|ensures|modifies|loop|invariant|decreases|unroll|trusted|props|safety|noinline|global-invariant|lemma|typeinv|end)\b`)
+var clauseKw = regexp.MustCompile(`^(func|iface|callback|spawn|event|step|uses|assumes|requires|ensures|modifies|loop|invariant|decreases|unroll|trusted|props|safety|noinline|global-invariant|lemma|typeinv|end)\b`)
 
 // LoadContracts reads //@ comment blocks from the given files.
 func LoadContracts(files ...string) (*ContractSet, error) {
@@ -233,6 +235,10 @@ func (cs *ContractSet) loadFile(path string) error {
 				cur.Safety = true
 			case "noinline":
 				cur.NoInline = true
+			case "uses":
+				cur.Uses = append(cur.Uses, strings.Fields(strings.ReplaceAll(r.text, ",", " "))...)
+			case "assumes":
+				cur.Assumes = append(cur.Assumes, strings.Fields(strings.ReplaceAll(r.text, ",", " "))...)
 			}
 		}
 	}
